@@ -241,14 +241,13 @@ def token_is_not_a_parenthesis(iQuote, lChars):
 
 
 def filter_character_literal_candidates(lLiterals):
+    # Candidates which share a quote overlap, e.g. the comma in 'a','b' looks like a literal itself.
+    # Take the candidates from left to right and skip one which starts at the closing quote of a literal already taken.
     lReturn = []
-    for iIndex, lLiteral in enumerate(lLiterals[0:-1]):
-        lNextLiteral = lLiterals[iIndex + 1]
-        lPreviousLiteral = lLiterals[iIndex - 1]
-        if lLiteral[1] == lNextLiteral[0] and lLiteral[0] == lPreviousLiteral[1]:
+    for lLiteral in lLiterals:
+        if len(lReturn) > 0 and lLiteral[0] == lReturn[-1][1]:
             continue
         lReturn.append(lLiteral)
-    lReturn.append(lLiterals[-1])
     return lReturn
 
 
